@@ -4,7 +4,7 @@ import json
 import os
 import random
 
-from vlib import core
+from vlib import core, gen_sys
 
 
 def tok_text(tok):
@@ -75,6 +75,7 @@ def run(tier, seed):
     conf.run("random", "std256", "err_vm", ["err_vm.c"], rnd, "trace/ErrTrace.tla", nontrivial=nontrivial,
              min_per_shard=100, stateless=False)
     context_half(conf, ev, wd, rng, quick)
+    system_histories(conf, ev, wd, rng, quick)
     ev.cov["exhaustive"] = True
     ev.cov["exhaustive_note"] = "all complete programs of the model within the generator's token budget were replayed"
     return conf.finish()
@@ -145,6 +146,45 @@ def context_half(conf, ev, wd, rng, quick):
                                         for _ in range(4)))
     conf.run("threads", "multi", "ctx", ["drv_ctx.c"], tcases, "trace/CtxTrace.tla", shards=4,
              env={"FRESH": mfresh}, nontrivial=lambda e: True, min_per_shard=40, driver_timeout=1800)
+
+
+def sys_parsets(cfg, wd):
+    """constants of every selectable set as a FRESH library reports them: one process per identifier"""
+    exe = core.cc_harness(cfg, "relic_vm2", ["relic_vm2.c"])
+    d = os.path.join(wd, "sysfresh-" + cfg)
+    os.makedirs(d, exist_ok=True)
+    out = []
+    for i in EXPECTED_IDS[cfg]:
+        cp = os.path.join(d, "p%d.txt" % i)
+        open(cp, "w").write("reset\n" + gen_sys.probe_lines([i])[0] + "\n")
+        evs = [e for e in core.run_driver(exe, cp, os.path.join(d, "p%d.ndjson" % i), timeout=120) if e.get("op") == "select"]
+        if not evs or evs[0].get("err") != 0:
+            # an expected set that a fresh library cannot select: keep it in the histories (the selection event is
+            # then rejected by the trace specification), with constants that nothing can match
+            out.append(gen_sys.ParSet("param %d 7 1 1 1 1 5" % i, 7, 5))
+        else:
+            out.append(gen_sys.parset_from_probe(evs[0]))
+    return out
+
+
+def system_histories(conf, ev, wd, rng, quick):
+    """the library as ONE machine across integers, field and curve under changing selections (model/RelicSys)"""
+    core.run_models(ev, [("MCRelicSys", "MCRelicSys", "one machine across the layers over F_11 (two curves), 2 slots per type, 3 calls "
+                                                      "after the selection: cross-layer frame condition, KNOWN points on the "
+                                                      "selected curve, residues reduced, sticky code", False)])
+    nt = lambda e: e.get("op", "").startswith(("fp_", "ep_")) and e.get("err") == 0
+    ss = lambda ln: ln == "reset"
+    # shipped build: every identifier of the build, selections change in the middle of a history
+    ps = sys_parsets("std256", wd)
+    lines = gen_sys.histories(ps, rng, 40 if quick else 600, 256, 1024, max_mul=5)
+    conf.run("sys-std256", "std256", "relic_vm2", ["relic_vm2.c"], lines, "trace/RelicSysTrace.tla",
+             case_seg_start=ss, nontrivial=nt, min_per_shard=60, spec_cfg="trace/RelicSysTrace.cfg", heap="2g")
+    # tiny worlds (8-bit digits, one-digit primes, directly installed curves): long histories, every scalar class
+    tp = gen_sys.tiny_parsets()
+    lines = gen_sys.histories(tp, rng, 150 if quick else 3000, 8, 32, max_mul=40, seg_len=(20, 60))
+    conf.run("sys-w8p8", "w8p8", "relic_vm2", ["relic_vm2.c"], lines, "trace/RelicSysTrace.tla",
+             case_seg_start=ss, nontrivial=nt, min_per_shard=300, spec_cfg="trace/RelicSysTrace_w8.cfg", heap="2g")
+    ev.cov["system_histories"] = dict(sets_std256=[p.line.split()[1] for p in ps], tiny_sets=[p.line for p in tp])
 
 
 def replay(path, seed):
